@@ -43,6 +43,7 @@ TSS = "src/structures/tss.rs"
 IDT = "src/structures/idt.rs"
 TLB = "src/instructions/tlb.rs"
 DBG = "src/registers/debug.rs"
+MSR = "src/registers/model_specific.rs"
 
 # Erased newtypes: nominal type -> underlying integer type.
 NEWTYPES = {
@@ -51,6 +52,7 @@ NEWTYPES = {
     "SegmentSelector": "u16", "PrivilegeLevel": "u8", "DescriptorFlags": "u64",
     "SelectorErrorCode": "u64", "Pcid": "u16", "Dr7Value": "u64", "Dr7Flags": "u64", "Dr6Flags": "u64",
     "DebugAddressRegisterNumber": "u8", "BreakpointCondition": "u8", "BreakpointSize": "u8", "DescriptorTable": "u8",
+    "ExceptionVector": "u8", "PatMemoryType": "u8",
 }
 # Field names of the erased single-field structs (reading the field is the identity).
 NEWTYPE_FIELDS = {"Page": "start_address", "PhysFrame": "start_address", "PageTableEntry": "entry",
@@ -69,7 +71,7 @@ STRUCTS = {
 GENERIC_OWNERS = {"Page", "PhysFrame", "PageRange", "PageRangeInclusive", "PhysFrameRange", "PhysFrameRangeInclusive"}
 FLAG_TYPES = {"PageTableFlags", "DescriptorFlags", "Dr7Flags", "Dr6Flags"}
 ENUMS = {"PageTableLevel", "PrivilegeLevel", "DebugAddressRegisterNumber", "BreakpointCondition", "BreakpointSize",
-         "DescriptorTable"}
+         "DescriptorTable", "ExceptionVector", "PatMemoryType"}
 # Enums with data: name -> [(variant, [payload types])]; erased to the tuple (tag : u8, payload slots...), the slots
 # being the pointwise union of the variants' payloads (unused slots are zero).
 DATA_ENUMS = {"Descriptor": [("UserSegment", ["u64"]), ("SystemSegment", ["u64", "u64"])]}
@@ -266,6 +268,9 @@ TARGETS = [
     T(DBG, "BreakpointSize", "new", "BreakpointSize"),
     T(DBG, "BreakpointSize", "from_bits", "BreakpointSize"),
     T(IDT, "SelectorErrorCode", "descriptor_table", "SelectorErrorCode"),
+    T(IDT, "TryFrom<u8> for ExceptionVector", "try_from", "ExceptionVector", "try_from_u8"),
+    T(MSR, "PatMemoryType", "from_bits", "PatMemoryType"),
+    T(MSR, "PatMemoryType", "bits", "PatMemoryType"),
     T(DBG, "Dr7Value", "valid_bits", "Dr7Value"),
     T(DBG, "Dr7Value", "from_bits", "Dr7Value"),
     T(DBG, "Dr7Value", "from_bits_truncate", "Dr7Value"),
@@ -1982,7 +1987,10 @@ def generate(repo, outdir):
                 # associated types of operator / iterator traits as declared in the impl
                 for (s, e) in find_impl_bodies(strip_comments(srcs[tg.file]), tg.impl):
                     for m in re.finditer(r"type\s+(\w+)\s*=\s*([^;]+);", srcs[tg.file][s:e]):
-                        assoc[m.group(1)] = conv_ty(P(tokenize(m.group(2))).ty(), tg.owner)
+                        try:
+                            assoc[m.group(1)] = conv_ty(P(tokenize(m.group(2))).ty(), tg.owner)
+                        except ValueError:
+                            pass        # e.g. `type Error = ...`: error payloads are erased
             rty = conv_ty(P(tokenize(ret)).ty(), tg.owner, assoc) if ret else Ty("unit")
         except (ValueError, KeyError, IndexError) as exn:
             missing[tg.lean] = f"{tg.file}: {tg.impl or ''} fn {tg.fn}: {exn}"
